@@ -1,5 +1,8 @@
 import SteelVerif.C12.Props
 open SteelVerif.C12
+#print axioms read_total
+#print axioms spans_in_bounds
+#print axioms tokens_in_order
 #print axioms read_write_partial
 #print axioms read_write_partial_i
 #print axioms read_write_partial_ii
